@@ -6,7 +6,8 @@ import AmVerif.Lemmas.Reload
 * `Prog.Plain` — loaders built from `ret / fail / panic / read / readDir / getCached / load / tick`
   only. `.noRecord`, `.onThread`, `.tryCatch` are excluded because what they read is deliberately
   not recorded; `.loadOwned` is excluded because it always re-evaluates the nested loader under a
-  frame of its own, so that what decides its value is not in the parent's record.
+  frame of its own, so that what decides its value is not in the parent's record; `.getOrInsert` is
+  excluded because it mutates the cache (it may fill a slot).
 * `hitRun env f s p` — the evaluation `eval env f s p` is a **tracked hit-only run**: on the path it
   actually takes it meets plain constructors only, every `.load` finds its key cached (a *hit*: no
   nested evaluation, nothing inserted), and every look-up is recorded (the type is hot-reloaded and
@@ -103,6 +104,7 @@ def hitRun (env : Env) : Nat → St → Prog → Bool
   | _+1, _, .onThread _ _ => false
   | _+1, _, .tryCatch _ _ => false
   | _+1, _, .loadOwned _ _ => false
+  | _+1, _, .getOrInsert _ _ _ => false
 
 /-- A tracked hit-only run keeps the stack below the top frame, only adds to the top frame, and
 does not touch the map. -/
@@ -175,6 +177,7 @@ theorem hitRun_frame (env : Env) : ∀ (f : Nat) (p : Prog) (s : St) (ds : List 
     | onThread body k => simp only [hitRun] at hh; cases hh
     | tryCatch body k => simp only [hitRun] at hh; cases hh
     | loadOwned key k => simp only [hitRun] at hh; cases hh
+    | getOrInsert key v k => simp only [hitRun] at hh; cases hh
 
 
 theorem St.record_out (s : St) (on : Bool) (d : Dep) : (s.record on d).out = s.out := by
@@ -224,6 +227,7 @@ theorem hitRun_out (env : Env) : ∀ (f : Nat) (p : Prog) (s : St),
     | onThread body k => simp only [hitRun] at hh; cases hh
     | tryCatch body k => simp only [hitRun] at hh; cases hh
     | loadOwned key k => simp only [hitRun] at hh; cases hh
+    | getOrInsert key v k => simp only [hitRun] at hh; cases hh
 
 /-! ## Read-set determinacy -/
 
@@ -374,6 +378,7 @@ theorem eval_readset {env env' : Env} (hS : env.Steady) (hS' : env'.Steady) (hL 
     | onThread body k => simp only [hitRun] at hh; cases hh
     | tryCatch body k => simp only [hitRun] at hh; cases hh
     | loadOwned key k => simp only [hitRun] at hh; cases hh
+    | getOrInsert key v k => simp only [hitRun] at hh; cases hh
 
 /-! ## The evaluation of a reload -/
 
@@ -509,6 +514,15 @@ theorem eval_topMono (env : Env) : ∀ f s p, TopMono s (eval env f s p).1 := by
     | getCached key k =>
       simp only [eval]
       exact (topMono_record s _ _).trans (ih _ _)
+    | getOrInsert key v k =>
+      simp only [eval]
+      refine (topMono_record s (recordsAsset (env.types key.ty).hot env.hasReloader) (.asset key)).trans ?_
+      generalize s.record _ _ = s'
+      cases hl : s'.lookup key with
+      | some c => simp only []; exact TopMono.trans (b := s'.handOut key.ty) (TopMono.of_recs_eq rfl) (ih _ _)
+      | none =>
+        simp only []
+        exact TopMono.trans (TopMono.of_recs_eq (by simp [St.own])) (ih _ _)
     | tick k =>
       simp only [eval]
       exact TopMono.trans (b := { s with loads := s.loads + 1 }) (TopMono.of_recs_eq rfl) (ih _ _)
